@@ -91,6 +91,7 @@ type Exec struct {
 	engineErrors []string
 	nondetEnv    int
 	lazyRun      int
+	strFacts     map[*Term]*strFact
 }
 
 type AssertRec struct {
@@ -159,17 +160,99 @@ func sanitize(s string) string {
 func (ex *Exec) assume(c *Term) {
 	if v, ok := c.BoolVal(); ok {
 		if !v {
-			panic(&pathAbort{"infeasible"})
+			panic(infeasibleAbort())
 		}
 		return
 	}
 	ex.sol.Assert(c)
 	ex.pcN++
+	ex.learnStrFact(c)
+}
+
+// strFacts: per string variable the literal it is known to equal / differ from (from asserted
+// conditions of the form (= var "lit")); lets dispatch-style comparisons fold without a query.
+type strFact struct {
+	eq    *string
+	neq   map[string]bool
+}
+
+func varEqLit(c *Term) (*Term, string, bool) {
+	if c.Op == "=" && len(c.Args) == 2 && c.Args[0].Sort == SStr {
+		a, b := c.Args[0], c.Args[1]
+		if a.Op == "var" {
+			if l, ok := b.StrVal(); ok {
+				return a, l, true
+			}
+		}
+		if b.Op == "var" {
+			if l, ok := a.StrVal(); ok {
+				return b, l, true
+			}
+		}
+	}
+	return nil, "", false
+}
+
+func (ex *Exec) learnStrFact(c *Term) {
+	neg := false
+	if c.Op == "not" {
+		neg = true
+		c = c.Args[0]
+	}
+	if c.Op == "and" && !neg {
+		ex.learnStrFact(c.Args[0])
+		ex.learnStrFact(c.Args[1])
+		return
+	}
+	v, lit, ok := varEqLit(c)
+	if !ok {
+		return
+	}
+	if ex.strFacts == nil {
+		ex.strFacts = map[*Term]*strFact{}
+	}
+	f := ex.strFacts[v]
+	if f == nil {
+		f = &strFact{neq: map[string]bool{}}
+		ex.strFacts[v] = f
+	}
+	if neg {
+		f.neq[lit] = true
+	} else {
+		l := lit
+		f.eq = &l
+	}
+}
+
+func (ex *Exec) knownStrFact(c *Term) (bool, bool) {
+	neg := false
+	if c.Op == "not" {
+		neg = true
+		c = c.Args[0]
+	}
+	v, lit, ok := varEqLit(c)
+	if !ok || ex.strFacts == nil {
+		return false, false
+	}
+	f := ex.strFacts[v]
+	if f == nil {
+		return false, false
+	}
+	if f.eq != nil {
+		return (*f.eq == lit) != neg, true
+	}
+	if f.neq[lit] {
+		return neg, true
+	}
+	return false, false
 }
 
 // branch decides a (possibly symbolic) condition, forking via the decision vector.
 func (ex *Exec) branch(c *Term, site ssa.Instruction) bool {
 	if v, ok := c.BoolVal(); ok {
+		return v
+	}
+	if v, ok := ex.knownStrFact(c); ok {
 		return v
 	}
 	k := ex.choose(2, func(i int) *Term {
@@ -220,14 +303,13 @@ func (ex *Exec) choose(n int, guard func(i int) *Term, site ssa.Instruction) int
 			}
 			continue
 		}
-		if g.mentionsStrings() && ex.lazyRun < 24 {
-			// string conditions: fork without a feasibility query (DESIGN 2.2 amendment); an
-			// infeasible side is discarded by the query at its next assertion / path end
-			ex.lazyRun++
+		if g.mentionsStrings() && len(feas) > 0 && i == n-1 && n == 2 {
+			// string conditions: once the first side is known feasible the other side is queued
+			// without a query (DESIGN 2.2 amendment); if it is infeasible it dies at its next decision,
+			// assertion or path end
 			feas = append(feas, i)
 			continue
 		}
-		ex.lazyRun = 0
 		r, _, msg := ex.sol.Check(g, nil)
 		switch r {
 		case Sat:
@@ -239,7 +321,7 @@ func (ex *Exec) choose(n int, guard func(i int) *Term, site ssa.Instruction) int
 		}
 	}
 	if len(feas) == 0 {
-		panic(&pathAbort{"infeasible"})
+		panic(infeasibleAbort())
 	}
 	base := append([]Decision{}, ex.decs...)
 	for _, alt := range feas[1:] {
